@@ -34,7 +34,12 @@ type driver struct {
 	calls map[string]*call
 	order []*call
 	// latest channel per occupant address whose Client.Join has returned
-	chans   map[string]*muc.Channel
+	chans map[string]*muc.Channel
+	// every channel a Client.Join has ever returned for the address, in order
+	allChans map[string][]*muc.Channel
+	// occ: the address under which the room currently knows the occupant (the
+	// to address of the join request it last admitted)
+	occ     map[string]string
 	pending map[string]int // calls in flight per address
 	nbar    int
 	nctx    int
@@ -73,11 +78,86 @@ func (d *driver) sessionEnded() {
 	d.c.Violate("muc:session-ended", "the session ended in the middle of the script: Serve returned %v", err)
 }
 
+// checkRequest: what went out on the wire for a join.  Without a Nick option
+// (or with the nick the address already has) the request goes to the
+// channel's address; the options that were given are in it.
+func (d *driver) checkRequest(cl *call, rq request) {
+	if cl.op == "leave" || cl.checked {
+		return
+	}
+	cl.checked = true
+	if (cl.opts == nil || cl.opts.Nick != "different") && rq.Addr != cl.addr {
+		d.c.Violate("muc:join:request-address", "%s for %s (options %+v) sent its request to %q", cl.op, cl.addr, cl.opts, rq.Addr)
+	}
+	if rq.Addr != cl.addr {
+		d.c.Count("requests_sent_to_another_nick", 1)
+	}
+	if cl.opts == nil {
+		return
+	}
+	x := rq.El.Child(nsMUC, "x")
+	if x == nil {
+		d.c.Violate("muc:join:request-options", "%s request carries no <x xmlns='%s'/>: %v", cl.op, nsMUC, rq.El)
+		return
+	}
+	if cl.opts.Password != "" {
+		if pw := x.Child("*", "password"); pw == nil || pw.Text() != cl.opts.Password {
+			d.c.Violate("muc:join:request-options", "%s with Password(%q) sent %v", cl.op, cl.opts.Password, rq.El)
+		}
+	}
+	if cl.opts.History != "" {
+		attr := map[string]string{"max": "maxstanzas", "bytes": "maxchars", "since": "since", "duration": "seconds"}[cl.opts.History]
+		if h := x.Child("*", "history"); h == nil || !h.HasAttr(attr) {
+			d.c.Violate("muc:join:request-options", "%s with history option %s sent %v", cl.op, cl.opts.History, rq.El)
+		}
+	}
+}
+
+// options turns a step's description into muc.Option values.
+func options(o *joinOpts, addr string) []muc.Option {
+	if o == nil {
+		return nil
+	}
+	var out []muc.Option
+	switch o.Nick {
+	case "same":
+		out = append(out, muc.Nick(strings.SplitN(addr, "/", 2)[1]))
+	case "different":
+		out = append(out, muc.Nick("Hecate-the-second"))
+	}
+	if o.Password != "" {
+		out = append(out, muc.Password(o.Password))
+	}
+	switch o.History {
+	case "max":
+		out = append(out, muc.MaxHistory(3))
+	case "bytes":
+		out = append(out, muc.MaxBytes(1000))
+	case "since":
+		out = append(out, muc.Since(time.Date(2002, 10, 13, 23, 58, 37, 0, time.UTC)))
+	case "duration":
+		out = append(out, muc.Duration(3*time.Minute))
+	}
+	return out
+}
+
 func (d *driver) start(st step) {
 	addr := d.addr(st.Room)
 	d.nctx++
 	ctx, cancel := context.WithCancel(context.Background())
-	cl := &call{n: len(d.order) + 1, op: st.Op, addr: addr, ctxN: d.nctx, cancel: cancel, done: make(chan struct{})}
+	cl := &call{n: len(d.order) + 1, op: st.Op, addr: addr, ctxN: d.nctx, cancel: cancel, done: make(chan struct{}), opts: st.Opts}
+	if st.Opts != nil {
+		d.c.Count("calls_with_options", 1)
+		if st.Opts.Nick != "" {
+			d.c.Count("calls_with_nick_"+st.Opts.Nick, 1)
+		}
+		if st.Opts.History != "" {
+			d.c.Count("calls_with_history_option", 1)
+		}
+		if st.Opts.Password != "" {
+			d.c.Count("calls_with_password", 1)
+		}
+	}
 	if st.Op != "join" {
 		cl.ch = d.chans[addr]
 		if cl.ch == nil {
@@ -102,9 +182,9 @@ func (d *driver) start(st step) {
 		d.c.Guard("muc."+st.Op, func() {
 			switch st.Op {
 			case "join":
-				cl.ch, cl.err = d.w.client.JoinPresence(ctx, stanza.Presence{To: jid.MustParse(addr), ID: cl.reqID}, d.w.p.S)
+				cl.ch, cl.err = d.w.client.JoinPresence(ctx, stanza.Presence{To: jid.MustParse(addr), ID: cl.reqID}, d.w.p.S, options(st.Opts, addr)...)
 			case "rejoin":
-				cl.err = cl.ch.JoinPresence(ctx, stanza.Presence{ID: cl.reqID})
+				cl.err = cl.ch.JoinPresence(ctx, stanza.Presence{ID: cl.reqID}, options(st.Opts, addr)...)
 			case "leave":
 				cl.err = cl.ch.LeavePresence(ctx, "", stanza.Presence{ID: cl.reqID})
 			}
@@ -155,10 +235,16 @@ func (d *driver) finish(cl *call) {
 	d.pending[cl.addr]--
 	if cl.op == "join" && cl.ch != nil {
 		d.chans[cl.addr] = cl.ch
+		d.allChans[cl.addr] = append(d.allChans[cl.addr], cl.ch)
 		if cl.err == nil {
+			// the occupant is in under the address the request went to
+			want := cl.addr
+			if rq, ok := d.w.requestSeen(cl.reqID, 0); ok {
+				want = rq.Addr
+			}
 			me, bare := cl.ch.Me().String(), cl.ch.Addr().String()
-			if me != cl.addr || bare != strings.SplitN(cl.addr, "/", 2)[0] {
-				d.c.Violate("muc:join:channel-address", "Join(%s) succeeded; Channel.Me()=%q Addr()=%q", cl.addr, me, bare)
+			if me != want || bare != strings.SplitN(cl.addr, "/", 2)[0] {
+				d.c.Violate("muc:join:channel-address", "Join(%s) succeeded (request sent to %s); Channel.Me()=%q Addr()=%q", cl.addr, want, me, bare)
 			}
 		}
 	}
@@ -256,29 +342,45 @@ func (d *driver) barrier() bool {
 				}
 			}
 		}
-		if d.pending[a] != 0 {
-			continue
+		// Every channel value a Client.Join ever returned for the address is
+		// asked.  The latest one, with no call in flight, is judged against the
+		// occupant model in both directions; the others (replaced channels, and
+		// all of them while a call is in flight) only in one: once the occupant
+		// is out they must all say so.
+		all := d.allChans[a]
+		for i, ch := range all {
+			var v bool
+			d.c.Guard("muc.Channel.Joined", func() { v = ch.Joined() })
+			ev := "joined-old?"
+			if i == len(all)-1 && d.pending[a] == 0 {
+				ev = "joined?"
+			}
+			d.w.log.add(event{Ev: ev, Addr: a, K: d.nbar, Val: fmt.Sprint(v), Call: i + 1})
 		}
-		var v bool
-		ch := d.chans[a]
-		d.c.Guard("muc.Channel.Joined", func() { v = ch.Joined() })
-		d.w.log.add(event{Ev: "joined?", Addr: a, K: d.nbar, Val: fmt.Sprint(v)})
 	}
 	return true
 }
 
-// latestJoinRequest: the id of the latest join request the room has seen for
-// the address (a room echoes it in the self-presence).
-func (d *driver) latestJoinRequest(addr string) string {
+// latestJoinRequest: id and to address of the latest join request the room
+// has seen for the occupant (a room echoes the id in the self-presence).
+func (d *driver) latestJoinRequest(addr string) (id, to string) {
 	for i := len(d.order) - 1; i >= 0; i-- {
 		cl := d.order[i]
 		if cl.addr == addr && cl.op != "leave" {
-			if _, ok := d.w.requestSeen(cl.reqID, 0); ok {
-				return cl.reqID
+			if rq, ok := d.w.requestSeen(cl.reqID, 0); ok {
+				return cl.reqID, rq.Addr
 			}
 		}
 	}
-	return ""
+	return "", ""
+}
+
+// occupant: the address the room uses for our occupant of the room.
+func (d *driver) occupant(room int) string {
+	if a := d.occ[d.addr(room)]; a != "" {
+		return a
+	}
+	return d.addr(room)
 }
 
 func (d *driver) exec(st step) {
@@ -298,7 +400,8 @@ func (d *driver) exec(st step) {
 		if cl == nil || cl.reqID == "" {
 			break
 		}
-		if _, ok := w.requestSeen(cl.reqID, 300*time.Millisecond); ok {
+		if rq, ok := w.requestSeen(cl.reqID, 300*time.Millisecond); ok {
+			d.checkRequest(cl, rq)
 			break
 		}
 		// A Channel.Join can block before it sends anything (an abandoned earlier
@@ -331,15 +434,21 @@ func (d *driver) exec(st step) {
 			d.aborted = true
 		}
 	case "self":
-		w.presenceItem(d.addr(st.Room), "", d.latestJoinRequest(d.addr(st.Room)), true, st.Aff, st.Role, codes(st, 110)...)
+		// the room answers at the address the request was actually sent to
+		id, to := d.latestJoinRequest(d.addr(st.Room))
+		if to == "" {
+			to = d.occupant(st.Room)
+		}
+		d.occ[d.addr(st.Room)] = to
+		w.presenceItem(to, "", id, true, st.Aff, st.Role, codes(st, 110)...)
 		d.countItem(st, "")
 	case "self-unsolicited", "self-again":
-		w.presenceItem(d.addr(st.Room), "", "", true, st.Aff, st.Role, codes(st, 110)...)
+		w.presenceItem(d.occupant(st.Room), "", "", true, st.Aff, st.Role, codes(st, 110)...)
 		d.countItem(st, "")
 	case "error":
 		if cl := d.calls[st.Label]; cl != nil && cl.reqID != "" {
 			if rq, ok := w.requestSeen(cl.reqID, 0); ok {
-				w.errorPresence(cl.addr, rq.ID, errTypeOf(st.Cond), st.Cond)
+				w.errorPresence(rq.Addr, rq.ID, errTypeOf(st.Cond), st.Cond)
 			}
 		}
 	case "other":
@@ -360,10 +469,10 @@ func (d *driver) exec(st step) {
 	case "foreign-unavailable":
 		w.presenceItem("neverjoined@chat.example.net/somebody", "unavailable", "", false, st.Aff, st.Role, codes(st, 110)...)
 	case "kick":
-		w.presenceItem(d.addr(st.Room), "unavailable", "", true, st.Aff, st.Role, codes(st, 307, 110)...)
+		w.presenceItem(d.occupant(st.Room), "unavailable", "", true, st.Aff, st.Role, codes(st, 307, 110)...)
 		d.countItem(st, "own_")
 	case "unavail":
-		w.presenceItem(d.addr(st.Room), "unavailable", "", true, st.Aff, st.Role, codes(st, 110)...)
+		w.presenceItem(d.occupant(st.Room), "unavailable", "", true, st.Aff, st.Role, codes(st, 110)...)
 		d.countItem(st, "own_")
 	case "invite":
 		d.invites = append(d.invites, st.Inv)
@@ -413,7 +522,7 @@ func execCase(c *core.Case, mc *muCase) {
 		return
 	}
 	defer w.shutdown()
-	d := &driver{c: c, w: w, mc: mc, base: base, calls: map[string]*call{}, chans: map[string]*muc.Channel{}, pending: map[string]int{}}
+	d := &driver{c: c, w: w, mc: mc, base: base, calls: map[string]*call{}, chans: map[string]*muc.Channel{}, allChans: map[string][]*muc.Channel{}, occ: map[string]string{}, pending: map[string]int{}}
 	for _, st := range mc.Steps {
 		d.exec(st)
 		if d.aborted {
